@@ -163,7 +163,7 @@ class Ctx:
                 if m and stack and stack[-1] == m.group(1):
                     stack.pop()
                     continue
-                m = re.match(r"^(?:private\s+|protected\s+)?theorem\s+(\S+)", line)
+                m = re.match(r"^(?:protected\s+)?theorem\s+(\S+)", line)
                 if m and not m.group(1).endswith("_placeholder"):
                     names.append(".".join(stack + [m.group(1)]))
         self.theorems = [n.split(".")[-1] for n in names]
